@@ -182,6 +182,20 @@ def enumerate_cases(tier: str):
                 for newer in ([2, 0, 1, 0, 0, "newer"], [2, 1, 1, 0, 0, "other key"], [2, 0, 1, 0, 2, "other type"]):
                     ops = first + [["send", [2, 0, 1, 0, 0, "older"], None], ["send", [2, 1, 1, 0, 2, "second"], None], ["rx_race", f"2;255;3;0;{wake_t};6\n", newer]] + later
                     yield {"pair": [old, new], "metric": True, "registry": ENUM_REGISTRY, "ops": ops}
+    # version reports that resolve to no protocol (from the gateway, from a node): refused alike, nothing is re-pinned
+    for old, new in PAIRS:
+        for text in ("", "garbage", "x.y", "v", "0", "1", "-1"):
+            ops = [["rx", f"1;255;3;0;2;{text}\n"], ["rx", f"0;255;3;0;2;{text}\n"], ["rx", f"2;255;3;1;2;{text}\n"], ["rx", "1;0;1;0;0;5\n"], ["send", [2, 0, 1, 0, 0, "9"], None], ["rx", "1;0;2;0;0;\n"]]
+            yield {"pair": [old, new], "metric": True, "registry": ENUM_REGISTRY, "ops": ops}
+    # what the registry says about the NODE's own library version (free text: "1.4" for a placeholder, empty, nonsense) while it sleeps
+    for old, new in PAIRS:
+        wakes = [t for t in (22, 32) if t <= INTERNAL_MAX[old] and not (t == 22 and new == "2.2")]
+        for node_version in ("1.4", "", "1.5.1", "garbage", "2.0", "3.0", "1"):
+            reg = {"2": dict(ENUM_REGISTRY["2"], protocol_version=node_version), "1": dict(ENUM_REGISTRY["1"], protocol_version=node_version)}
+            for wake_t in wakes or [None]:
+                ops = [["send", [2, 0, 1, 0, 0, "a"], None], ["send", [2, 0, 1, 0, 2, "b"], None], ["send", [1, 0, 1, 0, 0, "c"], None]]
+                ops += ([["rx", f"2;255;3;0;{wake_t};5\n"], ["send", [2, 0, 1, 0, 0, "d"], None], ["rx", f"2;255;3;0;{wake_t};6\n"]] if wake_t else []) + [["rx", "2;0;2;0;0;\n"], ["rx", "2;0;1;0;0;7\n"]]
+                yield {"pair": [old, new], "metric": True, "registry": reg, "ops": ops}
     # the shape of the registry when ids are asked for: the highest id taken (with gaps below), a full registry, an empty one, ids 0 and 255 present
     def bare(i):
         return {"node_id": i, "node_type": 17, "protocol_version": "2.0", "sketch_name": "", "sketch_version": "", "battery_level": 0, "heartbeat": 0, "sleeping": False, "children": {}}
